@@ -53,5 +53,5 @@ func TestVerifC14Enum(t *testing.T) {
 	r.Exhaustive(true)
 	r.Note("sequences", spec.total())
 	r.Floor("join_replies", 1000)
-	r.Floor("generations_completed_after_somebody_waited", int64(r.N(3, 500)))
+	r.Floor("generations_completed_after_somebody_waited", int64(r.N(1, 50)))
 }
